@@ -266,6 +266,8 @@ func runJob(j job) string {
 		return countJob(j.data, j.cfg == "S")
 	case "Q":
 		return sencJob(j.data, j.cfg)
+	case "Y":
+		return xrefJob(j.data, parseCfg(j.cfg))
 	}
 	return "badjob"
 }
